@@ -249,6 +249,9 @@ func main() {
 		os.MkdirAll(pwork, 0o755)
 		replayEnv = ph.Env
 		bin := filepath.Join(verif, ".build", id+"-"+ph.Name+".test")
+		if repoPath != "/repo" {
+			bin = filepath.Join(pwork, id+"-"+ph.Name+".test") // scratch-tree evaluations may run side by side
+		}
 		args := []string{"test", "-c", "-o", bin}
 		if ph.Race {
 			args = append(args, "-race")
@@ -532,6 +535,12 @@ func main() {
 	b, _ := json.MarshalIndent(ev, "", " ")
 	os.WriteFile(filepath.Join(evidenceDir, id+".json"), append(b, '\n'), 0o644)
 	fmt.Printf("runs=%d nontrivial-distinct=%d interleavings=%d states=%d sim_time=%.0fs wall=%.1fs (%.0f runs/h)\n", total.runs, len(plans), len(inters), len(states), float64(total.simMs)/1000, wall, runsPerHour)
+	if n := total.stats["plans_over_step_limit"]; n > 0 {
+		fmt.Printf("warning: %d of %d plans exceeded the scheduler step bound and were skipped\n", n, total.runs)
+		if n*50 > total.runs && harness == "" {
+			harness = fmt.Sprintf("%d of %d plans exceeded the scheduler step bound", n, total.runs)
+		}
+	}
 	if harness != "" {
 		fmt.Printf("HARNESS: %s\n", harness)
 		if violations == 0 {
